@@ -10,7 +10,8 @@ Families
   `OPS = ((join a b (ca ...) (cb ...)) | (unjoin a b) ...)`; `VIEW = N | (i ...)`;
   `PYOUT = incompatible | (mask (T F ...)) | anything else (rejected)`.
 * `(castv (SRC DST cell) PYOUT)` — L0: `np.result_type` + `astype` + item bytes; `PYOUT = (DT (byte ...))`.
-* `(eqv (DTA cella DTB cellb) PYOUT)` — L0: numpy `==` / `np.isin` on one pair; `PYOUT = T | F`.
+* `(eqv (DTA cella DTB cellb) PYOUT)` — L0: numpy `==` / `np.isin` on one pair and exact equality of the
+  two values; `PYOUT = (T|F T|F)`.
 -/
 open GlueVerif GlueVerif.Sexp GlueVerif.Joins
 
@@ -98,7 +99,8 @@ def step (line : String) : String :=
       let ok := match res? pyout with
         | some r => specOk w d v r
         | none => false
-      driverResult (resToSexp impl) ok (specOk w d v impl) (worldOk w) (branchOf w d)
+      -- `p` = hypothesis of `C11.join_correct`: legal key tuples and value-preserving promotions
+      driverResult (resToSexp impl) ok (specOk w d v impl) (worldOk w && exactOk w) (branchOf w d)
     | _, _, _, _ => driverError "g-args"
   | some (.list [.atom "castv", .list [src, dst, c], pyout]) =>
     match dtype? src, dtype? dst with
@@ -120,9 +122,12 @@ def step (line : String) : String :=
       match cell? a ca, cell? b cb with
       | some x, some y =>
         let r := veq (a, x) (b, y)
-        -- L0: the model of numpy's `==`; the n-n byte test must agree with it (comparison (b))
-        driverResult (ofBool r) (pyout == ofBool r) (nnMatch [(a, x)] [(b, y)] == r)
-          (pairOk (a, x) (b, y)) (if r then "eq" else "ne")
+        let rx := veqX (a, x) (b, y)
+        -- L0: the model of numpy's `==` and of exact equality (python: exact integer / rational
+        -- comparison); the n-n byte test must agree with numpy's `==` (comparison (b))
+        let out := Sexp.list [ofBool r, ofBool rx]
+        driverResult out (pyout == out) (nnMatch [(a, x)] [(b, y)] == r)
+          (pairOk (a, x) (b, y)) (if r then (if rx then "eq" else "eq-by-rounding") else "ne")
       | _, _ => driverError "eqv-cell"
     | _, _ => driverError "eqv-args"
   | _ => driverError "unknown-family"
